@@ -596,9 +596,11 @@ def table_roundtrip():
     return "" if dec(out) == "ac" else "driver markers differ from reuse.extract markers: %r" % dec(out)
 
 
+import c12s11     # noqa: E402  (needs the helpers above)
+
 PROPERTY = Property(
     pid="C12",
-    streams=[FilterStream(), ExtractStream(), ChainStream(), FileStream()] + pystr.STREAMS,
+    streams=[FilterStream(), ExtractStream(), ChainStream(), FileStream()] + pystr.STREAMS + c12s11.STREAMS,
     assumptions=[
         "CPython str.index/in/slicing are modelled by Py.findSub/take/drop (validated by the correspondence; the shared pystr streams "
         "compare the Python string mirrors of Py/Str.lean with CPython over all of Unicode and on enumerated strings)",
